@@ -263,7 +263,7 @@ def shipped_examples(res, tier):
 
     def one(g):
         wd = os.path.join(vlib.WORK, "c12_examples", vlib.source_hash(), g)
-        out = os.path.join(wd, "bout.grd.nc")
+        out = os.path.join(wd, "grid.nc")
         if not os.path.exists(out):
             os.makedirs(wd, exist_ok=True)
             for f in os.listdir(src):
@@ -271,18 +271,76 @@ def shipped_examples(res, tier):
                     open(os.path.join(wd, f), "w").write(open(os.path.join(src, f)).read())
             p = subprocess.run([sys.executable, os.path.join(src, "tokamak_example.py"), g, "--no-plot"], cwd=wd, env=dict(os.environ, PYTHONPATH=vlib.REPO, MPLBACKEND="Agg"),
                                stdout=subprocess.PIPE, stderr=subprocess.STDOUT, timeout=2400)
-            if p.returncode != 0 or not os.path.exists(out):
+            if p.returncode != 0 or not os.path.exists(os.path.join(wd, "bout.grd.nc")):
                 return g, None, p.stdout.decode()[-400:]
-        return g, gridlab.read_nc(out)[0], ""
+            os.replace(os.path.join(wd, "bout.grd.nc"), out)     # only complete files are ever seen under the cached name
+        return g, out, ""
 
     with ThreadPoolExecutor(max_workers=6) as ex:
-        for g, v, log in ex.map(one, geos):
-            res.case(key=("shipped-example", g), nontrivial=True, sample={"example": "examples/tokamak " + g})
-            if v is None:
-                res.violation("shipped-example-fails:" + g, "examples/tokamak/tokamak_example.py %s does not generate: %s" % (g, log), {"geometry": g})
-                continue
-            for wid, text in verdict(summary(v, False, False), True):
-                res.violation(wid, "shipped example %s: %s" % (g, text), {"example": g})
+        results = list(ex.map(one, geos))
+    for g, path, log in results:
+        # netCDF4/HDF5 is not thread safe: the files are read here, one after the other
+        v = gridlab.read_nc(path)[0] if path else None
+        res.case(key=("shipped-example", g), nontrivial=True, sample={"example": "examples/tokamak " + g})
+        if v is None:
+            res.violation("shipped-example-fails:" + g, "examples/tokamak/tokamak_example.py %s does not generate: %s" % (g, log), {"geometry": g})
+            continue
+        for wid, text in verdict(summary(v, False, False), True):
+            res.violation(wid, "shipped example %s: %s" % (g, text), {"example": g})
+        res.traces += 1
+
+
+def model_correspondence(res, grids, tier):
+    """Lean verdict / chi mask / CLI acceptance replayed on what the real code produced"""
+    import yaml
+    from hypnotoad.cases import tokamak
+    from hypnotoad.core.mesh import BoutMesh
+
+    lines, expect, names = [], [], []
+    for name, v, s, bt_zero in grids:
+        # where chi is finite in the file (only meaningful with a toroidal field)
+        if not bt_zero and "chi" in v:
+            nx, ny = v["chi"].shape
+            ints = [int(v[k]) for k in ("nx", "ny", "ixseps1", "ixseps2", "jyseps1_1", "jyseps2_1", "ny_inner", "jyseps1_2", "jyseps2_2", "y_boundary_guards")]
+            for suf in ("", "_xlow", "_ylow"):
+                lines.append("c12m " + " ".join(map(str, ints + [nx, ny])))
+                expect.append(";".join("".join("1" if np.isfinite(x) else "0" for x in row) for row in v["chi" + suf]))
+                names.append(("chi-defined-set" + suf, name))
+        nf = sum(d["count"] for k, d in s["nonfinite"].items() if not (bt_zero and k.startswith("chi")))
+        lines.append("c12v %d %d %d %d %d %d" % (len(s["missing"]), len(s["badshape"]), nf, sum(s["nonpositive"].values()), sum(s["zero"].values()), s["fold"]))
+        expect.append("true" if not [w for w in verdict(s, bt_zero) if w[0] != "chi-nan-core-Bt-zero"] else "false")
+        names.append(("verdict", name))
+    # the scripts' acceptance rule against the real script
+    ek = list(tokamak.TokamakEquilibrium.user_options_factory.defaults)
+    nk = list(tokamak.TokamakEquilibrium.nonorthogonal_options_factory.defaults)
+    mk = list(BoutMesh.user_options_factory.defaults)
+    rng = vlib.rng("C12-cli")
+    wd = os.path.join(vlib.WORK, "c12_cli")
+    os.makedirs(wd, exist_ok=True)
+    for it in range(6 if tier == "quick" else 30):
+        given = rng.sample(ek, 2) + rng.sample(nk, 1) + rng.sample(mk, 1)
+        if rng.random() < 0.5:
+            given.append(rng.choice(["nx_cor", "Orthogonal", "ny_soll", "psinorm_core ", "grid_file"]))
+        with open(os.path.join(wd, "in%d.yaml" % it), "w") as fh:
+            yaml.safe_dump({k: 1 for k in given}, fh)
+        # a missing geqdsk file is reported *after* the option check: FileNotFoundError = options accepted, ValueError naming the key = rejected
+        p = subprocess.run([sys.executable, "-c", "import sys; sys.path.insert(0, %r); import hypnotoad.scripts.hypnotoad_geqdsk as m; sys.argv=['x','nofile.geqdsk','in%d.yaml']; m.main()" % (vlib.REPO, it)],
+                           cwd=wd, stdout=subprocess.PIPE, stderr=subprocess.STDOUT, timeout=600)
+        txt = p.stdout.decode()
+        real = "false" if "not used" in txt else ("true" if "FileNotFoundError" in txt or "No such file" in txt else "other:" + txt[-120:])
+        lines.append("c12c %s %s %s %s" % (",".join(ek), ",".join(nk), ",".join(mk), ",".join(k.replace(" ", "_sp_") for k in given)))
+        expect.append(real)
+        names.append(("cli-accepts", str(given[-1])))
+    out = vlib.lean_driver(lines)
+    for ln, ex, o, nm in zip(lines, expect, out, names):
+        res.case(key=("model",) + nm, nontrivial=True)
+        if o.strip() != ex:
+            if nm[0].startswith("chi-defined-set"):
+                res.violation("chi-defined-set:%s" % nm[0][15:], "%s: chi%s is finite/NaN at different points than the documented rule (finite exactly on closed field lines in the core) — file: %s  rule: %s"
+                              % (nm[1], nm[0][15:], ex[:120], o.strip()[:120]), {"case": nm[1]})
+            else:
+                res.broken("Valid model differs from the implementation (%s)" % nm[0], {"line": ln[:300], "implementation": ex[:200], "model": o[:200]})
+        else:
             res.traces += 1
 
 
@@ -298,6 +356,7 @@ def run(res, tier):
     S = stream(tier)
     out = gridlab.get([sp for _, sp, _ in S])
     hist = {"grid": 0, "exception": 0, "timeout": 0}
+    grids = []
     for (name, sp, expect), o in zip(S, out):
         res.case(key=("stream", name), nontrivial=True, sample={"case": name})
         if o["error"]:
@@ -309,6 +368,8 @@ def run(res, tier):
             continue
         hist["grid"] += 1
         bt_zero = sp.get("fpol", "x") is None and sp.get("case") != "circular"
+        grids.append((name, o["vars"], summary(o["vars"], sp.get("pressure") is not None, not bt_zero, tokamak=sp.get("case") != "circular",
+                                               orthogonal=sp["options"].get("orthogonal", True) is not False), bt_zero))
         probs = verdict(summary(o["vars"], sp.get("pressure") is not None, not bt_zero, tokamak=sp.get("case") != "circular",
                                 orthogonal=sp["options"].get("orthogonal", True) is not False), bt_zero)
         for wid, text in probs:
@@ -316,6 +377,7 @@ def run(res, tier):
         if not probs:
             res.traces += 1
     res.extra["outcomes"] = hist
+    model_correspondence(res, grids, tier)
     option_rejection(res)
     cli_rejection(res)
     shipped_examples(res, tier)
